@@ -114,9 +114,11 @@ def owed (cfg : Cfg) : HPc → Option (List (Mod × Par))
   cases l with
   | nil => rfl
   | cons m rest => simp [afterSnap, items_cons]
-@[simp] theorem owed_afterTable (cfg : Cfg) (r : Req) : owed cfg (afterTable cfg r) = owed cfg (.start r) := by
+@[simp] theorem owed_afterTable (cfg : Cfg) (c : Conn) (r : Req) :
+    owed cfg (afterTable cfg c r) = owed cfg (.start r) := by
   cases r with
   | activate s => simp only [afterTable, owed_afterSnap]; rfl
+  | ident => simp only [afterTable]; cases (!cfg.logFails c) <;> rfl
   | _ => rfl
 @[simp] theorem owed_firstPc (cfg : Cfg) (r : Req) : owed cfg (firstPc r) = owed cfg (.start r) := by
   cases r <;> rfl
@@ -196,7 +198,7 @@ theorem uHeld_holds {pc : UPc} {m p e} (h : uHeld pc = some (m, p, e)) : uHoldsU
 @[simp] theorem hHeld_relDisp (r ok) : hHeld (.relDisp r ok) = none := rfl
 @[simp] theorem hHeld_rep (r ok) : hHeld (.rep r ok) = none := rfl
 @[simp] theorem hHeld_afterSnap (s l) : hHeld (afterSnap s l) = none := by cases l <;> rfl
-@[simp] theorem hHeld_afterTable (cfg r) : hHeld (afterTable cfg r) = none := by
+@[simp] theorem hHeld_afterTable (cfg c r) : hHeld (afterTable cfg c r) = none := by
   cases r <;> simp [afterTable]
 @[simp] theorem hHeld_firstPc (r) : hHeld (firstPc r) = none := by cases r <;> rfl
 @[simp] theorem uHeld_idle : uHeld .idle = none := rfl
